@@ -56,5 +56,5 @@ func (edb *EventDb) addBurnTicket(burnTicket BurnTicket) error {
 }
 
 func mergeAddBurnTicket() *eventsMergerImpl[BurnTicket] {
-	return newEventsMerger[BurnTicket](TagAddBurnTicket, withUniqueEventOverwrite())
+	return newEventsMerger[BurnTicket](TagAddBurnTicket)
 }
